@@ -217,7 +217,9 @@ theorem loopNode_mono (loop : St → Res) (hl : Mono loop) : Mono (loopNode loop
   | some e => exact h.trans (Frz.refl _)
   | none =>
     simp only
-    cases (loop { s with c := { s.c with brkD := 0 } }).st.c.err <;> exact h.trans (Frz.refl _)
+    cases (loop { s with c := { s.c with brkD := 0 } }).st.c.err with
+    | none => exact h.trans (Frz.refl _)
+    | some e => simp only; rw [loopErrRes_w]; exact h.trans (Frz.refl _)
 
 theorem interp_mono (reg : Registry) : ∀ f : Nat,
     (∀ nodes, Mono (writeTree reg f nodes)) ∧
